@@ -24,6 +24,7 @@ from harness.pipeline import ascending, scoring_params, build_aligner, Recorder
 from src.alignment.alignment_position import AlignedPair, NotAlignedReferencePosition, NotAlignedQueryPosition
 from src.alignment.alignment_results import AlignmentResultRow
 from src.alignment.segments import AlignmentSegment
+from src.alignment.segment_with_resolved_conflicts import AlignmentSegmentsWithResolvedConflicts
 from src.correlation.optical_map import OpticalMap
 from src.correlation.peak import Peak
 
@@ -197,3 +198,118 @@ def level2_unit(prop):
                      "witness replay is not run for this unit (the concrete run is the reachability-filtered public replay instead)"],
         stubs=["stages A-C replaced by a generator of segments satisfying I (over-approximation)", "observation wrappers of Level 1"],
         outside=["more than 3 generated segments", "segments longer than 4 positions"])
+
+
+# ------------------------------------------------------------------------------------------------ pair level (join path)
+
+def body_pair(prop):
+    """AlignmentSegment.checkForConflicts(...).resolveConflict() on two generated segments, reached through the public join
+    AlignmentResultRow.resolve of two one-segment records (earlier segment = smaller first reference coordinate); no chaining."""
+
+    def body(E, cfg):
+        ctx = generate(E, cfg)
+        a, b = ctx["generated"]
+        if not E.symbolic:
+            aligner = ctx["aligner"]
+            produced = []
+            for pk in ctx["peaks"]:
+                produced.extend(aligner.getSegments(ctx["rev"], pk, ctx["Q"], ctx["R"]))
+            real = []
+            for i, g in enumerate((a, b)):
+                m = [s for s in produced if s.positions and s.peak is ctx["peaks"][i] and seg_signature(s) == seg_signature(g)]
+                if not m:
+                    raise Infeasible()      # unreachable pre-state
+                real.append(m[0])
+            a, b = real
+        # the join of a first- and a second-pass record: the public AlignmentResultRow.resolve on two one-segment rows
+        if a.alignedPositions[0].reference.position < b.alignedPositions[0].reference.position:
+            left, right = a, b
+        else:
+            left, right = b, a
+        Q, R = ctx["Q"], ctx["R"]
+        rows = [AlignmentResultRow.create(AlignmentSegmentsWithResolvedConflicts([s]), Q.moleculeId, R.moleculeId, Q.length, R.length, ctx["rev"])
+                for s in (a, b)]
+        try:
+            joined = rows[0].resolve(rows[1].setAlignedRest(True))
+        except Exception as ex:  # noqa
+            if prop in ("C07", "C15", "C01"):
+                E.fail("exception:" + type(ex).__name__)
+            return ["exception", type(ex).__name__]
+        if joined is None:
+            E.tag("not-joined")
+            E.check("checked", True)
+            return ["not-joined"]
+        segs = [s for s in joined.segments]
+        nl = segs[0] if len(segs) > 0 else AlignmentSegment.create([], left.peak, [])
+        nr = segs[1] if len(segs) > 1 else AlignmentSegment.create([], right.peak, [])
+        rev = ctx["rev"]
+        both = sorted((p.reference.siteId, p.query.siteId) for s in (nl, nr) for p in s.alignedPositions)
+        if both:
+            E.tag("nontrivial")
+        if len(nl.positions) < len(left.positions) or len(nr.positions) < len(right.positions):
+            E.tag("trimmed")
+        bad = pipeline.valid_matching(both, ctx["rlab"], ctx["qlab"], rev)
+        lid, rid_ = [id(p) for p in left.positions], [id(p) for p in right.positions]
+        nlid, nrid = [id(p) for p in nl.positions], [id(p) for p in nr.positions]
+
+        def subrun(sub, full):
+            if not sub:
+                return True
+            if sub[0] not in full:
+                return False
+            k = full.index(sub[0])
+            return full[k:k + len(sub)] == sub
+        if prop == "C15":
+            if not (subrun(nlid, lid) and subrun(nrid, rid_)):
+                E.fail("pairwise-resolution-only-removes-positions-keeping-a-contiguous-run")
+            E.check("score-recomputed-as-sum-of-what-is-left", And(nl.segmentScore == sum(p.score for p in nl.positions),
+                                                                   nr.segmentScore == sum(p.score for p in nr.positions)))
+            if bad:
+                E.fail("after-a-pairwise-resolution-the-two-segments-share-no-label-and-do-not-cross")
+            first, last = right.alignedPositions[0], left.alignedPositions[-1]
+
+            def before(p, x):
+                return p.reference.siteId < x.reference.siteId and ((p.query.siteId > x.query.siteId) if rev else (p.query.siteId < x.query.siteId))
+            if not all(id(p) in nlid for p in left.alignedPositions if before(p, first)):
+                E.fail("pairs-of-the-earlier-segment-before-the-later-one's-first-pair-are-kept")
+            if not all(id(p) in nrid for p in right.alignedPositions if before(last, p)):
+                E.fail("pairs-of-the-later-segment-after-the-earlier-one's-last-pair-are-kept")
+        elif prop == "C04":
+            if "reference-label-used-at-most-once" in bad or "query-label-used-at-most-once" in bad:
+                E.fail("no-label-is-counted-in-two-pairs-of-one-record")
+            E.check("segment-scores-are-the-sum-of-their-members", And(nl.segmentScore == sum(p.score for p in nl.positions),
+                                                                      nr.segmentScore == sum(p.score for p in nr.positions)))
+        else:
+            for x in bad:
+                E.fail(x)
+            E.check("checked", True)
+        return [both, [len(nl.positions), len(nr.positions)]]
+    return body
+
+
+def pair_configs(tier):
+    cfgs = []
+    for rev in (False, True):
+        cfgs.append(dict(KR=3, KQ=3, NS=2, rev=rev, shapes=SHAPES_QUICK, sj="0"))
+        if tier != "quick":
+            cfgs.append(dict(KR=4, KQ=4, NS=2, rev=rev, shapes=SHAPES_THOROUGH, sj="0"))
+    if tier == "quick":
+        cfgs.append(dict(KR=4, KQ=4, NS=2, rev=False, shapes=["PP", "PPP", "PPPP"], sj="0"))
+    else:
+        cfgs.append(dict(KR=5, KQ=5, NS=2, rev=False, shapes=["PP", "PPP", "PPPP", "PQPP"], sj="0"))
+    return cfgs
+
+
+def pair_unit(prop):
+    return Unit(
+        name="pair-conflict-resolution", body=body_pair(prop), configs=pair_configs, witness=False,
+        shard_depth=lambda cfg, tier: 8,
+        functions=["src.alignment.segments:AlignmentSegment.checkForConflicts", "src.alignment.segments:AlignmentSegment.slice",
+                   "src.alignment.segments:_SegmentPairWithConflict", "src.alignment.segments:AlignmentSegment.__sub__"],
+        bounds="two generated segments (invariant I1-I5) over 3 x 3 labels with shapes of <= 3 positions and over 4 x 4 labels with 2-4 pairs "
+               "(quick) / 4 x 4 all shapes <= 4 and 5 x 5 (thorough), both strands, no chain admissibility (the join of a first- and a "
+               "second-pass record calls the resolution on any two records of one query)",
+        nontrivial_rule="at least one pair is left",
+        assumptions=["pre-state invariant I1-I5; candidates from pre-states the real Aligner.getSegments does not produce are dropped"],
+        stubs=["stages A-C replaced by the generator (over-approximation)"],
+        outside=["segments longer than 4 positions"])
